@@ -42,7 +42,10 @@ class GlencoeReader(TextToModel):
         feature_id = feature_node["id"]
         feature_type = features_info[feature_id]["type"]
         # optional = features_info[feature_id]['optional']
-        feature = Feature(name=features_info[feature_id]["name"], parent=parent)
+        feature_name = features_info[feature_id]["name"]
+        if not isinstance(feature_name, str):
+            raise FlamaException(f"The name of feature '{feature_id}' is not a string.")
+        feature = Feature(name=feature_name, parent=parent)
         if feature_type not in ("FEATURE", "XOR", "OR", "GENOR"):
             # it used to re-add the last relation made, or to fail on the unbound 'relation'
             raise FlamaException(f"Unknown type '{feature_type}' of feature '{feature.name}'.")
@@ -98,6 +101,8 @@ class GlencoeReader(TextToModel):
         if ctc_type == "FeatureTerm":
             feature_id = ctc_info["operands"][0]
             feature_name = features_info[feature_id]["name"]
+            if not isinstance(feature_name, str):
+                raise FlamaException(f"The name of feature '{feature_id}' is not a string.")
             node = Node(feature_name)
         elif ctc_type == "NotTerm":
             left = self._parse_ast_constraint(ctc_operands[0], features_info)
